@@ -306,8 +306,8 @@ func Main(p *Plan) {
 	}
 	r.Rule(p.Rule)
 	deadline := r.Budget(p.BudgetQuick, p.BudgetThorough)
+	t0 := time.Now()
 
-	type job struct{ idx int }
 	order := make([]int, 0, len(scs))
 	for i, sc := range scs {
 		if *fOnly != "" && !strings.Contains(sc.Name, *fOnly) {
@@ -342,7 +342,12 @@ func Main(p *Plan) {
 				i := order[next]
 				next++
 				mu.Unlock()
-				cmd := exec.Command(os.Args[0], "-tier", tier, "-dhworker", fmt.Sprint(i), "-dhdeadline", deadline.String())
+				// the budget is global: a worker started late gets what is left (at least 5s, so that shallow levels always run)
+				left := deadline - time.Since(t0)
+				if left < 5*time.Second {
+					left = 5 * time.Second
+				}
+				cmd := exec.Command(os.Args[0], "-tier", tier, "-dhworker", fmt.Sprint(i), "-dhdeadline", left.String())
 				cmd.Stderr = os.Stderr
 				// one logical thread per worker: a single P makes the scheduler's goroutine hand-offs direct
 				cmd.Env = append(os.Environ(), "GOMAXPROCS=1")
